@@ -254,6 +254,7 @@ def shards(tier, seed):
         out.append(dict(kind="leaf", seed=seed * 1000 + i, n=1500 if thorough else 250))
         out.append(dict(kind="prov", seed=seed * 1000 + i, n=60 if thorough else 12))
         out.append(dict(kind="hist", seed=seed * 1000 + i, n=25 if thorough else 6))
+        out.append(dict(kind="reghist", seed=seed * 1000 + i, n=400 if thorough else 40))
         out.append(dict(kind="esc", seed=seed * 1000 + i, n=3000 if thorough else 300))
     out.append(dict(kind="escfiles"))
     return out
@@ -439,6 +440,25 @@ def gen(desc):
         for f in translate_c18.extract_rule_files():
             with open(os.path.join(translate_c18.texts_dir(), f), encoding="utf-8") as fh:
                 yield dict(kind="esc", text=fh.read(), file=f)
+    elif k == "reghist":
+        # one long-lived Registry: vendors are registered one by one, lookups of a few models interleaved
+        rng = random.Random("reghist|%d" % desc["seed"])
+        nv = len(R["vendors"])
+        for _ in range(desc["n"]):
+            pool = []
+            for _ in range(rng.randint(1, 3)):
+                pool += chain_strings(list(rng.choice(R["seqs"])), desc["seed"], 0)
+            pool += [rng.choice(REAL_MODELS)]
+            order = list(range(nv))
+            rng.shuffle(order)
+            order = order[:rng.randint(2, nv)]
+            ops = []
+            for i in order:
+                ops.append(["reg", i])
+                for _ in range(rng.choice([0, 1, 1, 2])):
+                    ops.append(["match", rng.choice(pool)])
+            ops.append(["match", rng.choice(pool)])
+            yield dict(kind="reghist", ops=ops)
     elif k == "hist":
         # one long-lived provider over the shipped templates, serving several models (with repeats)
         rng = random.Random("hist|%d" % desc["seed"])
@@ -555,6 +575,20 @@ def impl(case):
         return _impl_prov(case)
     if k == "hist":
         return _impl_hist(case)
+    if k == "reghist":
+        from annet.annlib.netdev.views.hardware import HardwareView
+        from annet.vendors.registry import Registry
+        R = real()
+        reg = Registry()
+        served, fresh, done = [], [], []
+        for op, x in case["ops"]:
+            if op == "reg":
+                reg.register(R["vendors"][x][1])
+                done.append(x)
+            else:
+                served.append(_registry_match(reg, HardwareView(x, "")))
+                fresh.append(_registry_match(_fresh_registry([R["vendors"][i][1] for i in done]), HardwareView(x, "")))
+        return {"vendors": served, "fresh": fresh}
     if k == "esc":
         from annet.rulebook import DefaultRulebookProvider
         return {"ok": DefaultRulebookProvider._escape_mako(case["text"])}
@@ -807,6 +841,17 @@ def requests(case):
                      vendors=case["vendors"])]
     if k == "esc":
         return [dict(op="c18.escape", text=case["text"])]
+    if k == "reghist":
+        R = real()
+        rq, done = [], []
+        for op, x in case["ops"]:
+            if op == "reg":
+                done.append(x)
+            else:
+                truep = [p for (s_, p) in R["db"] if R["prepared"][tuple(s_)].search(x)]
+                rq.append(dict(op="c18.hw", db=R["db"], true=sorted(set(truep)), exprs=[],
+                               vendors=[[R["vendors"][i][0], R["vendors"][i][2]] for i in done], full=False))
+        return rq
     if k == "prov":
         try:
             return [dict(op="c18.provider", history=case["history"], **_prov_tables(case))]
@@ -820,6 +865,12 @@ def model(case, resp):
     k = case["kind"]
     if "fail" in r:
         return {"driver-fail": r["fail"]}
+    if k == "reghist":
+        for x in resp:
+            if "fail" in x or "err" in x:
+                return x
+        vs = [x["vendor"] for x in resp]
+        return {"vendors": vs, "fresh": vs}
     if k == "hw":
         if "err" in r:
             return r
@@ -990,6 +1041,12 @@ def oracle(case, r):
                 out.append(dict(sig="escape-leaves-percent", what="_escape_mako left %r for Mako to interpret" % line[:40]))
                 break
         return out
+    if k == "reghist":
+        if r["vendors"] != r["fresh"]:
+            out.append(dict(sig="registry-history-dependent",
+                            what="a registry that answered lookups while vendors were being registered answers %s; fresh "
+                                 "registries with the same vendors answer %s (ops %s)" % (r["vendors"], r["fresh"], case["ops"])))
+        return out
     if k == "hist":
         for (model, soft), a, b in zip(case["history"], r["served"], r["fresh"]):
             if a != b:
@@ -1012,6 +1069,8 @@ def nontrivial(case, r):
         return all("digest" in a for a, _ in r["loads"])
     if k in ("prov", "hist"):
         return len(case["history"]) >= 2
+    if k == "reghist":
+        return len(set(json.dumps(v) for v in r["vendors"])) >= 2
     if k == "esc":
         return r.get("ok") != case["text"]
     return False
